@@ -8,10 +8,11 @@
                 with every escape class, "a\(b)c", if (with and without elif/else), reduce, foreach (2 and 3 parts),
                 break $l, (a | b)
      suffixes   .b .e1 ."k" ."a\(b)" [a] [a:b] [a:] [:b] [] ?
-     terms      every kind with no suffix and with each suffix; eight kinds (. .. .x a 1 @base64 "s" (a)) also with
+     terms      every kind with no suffix and with each suffix; twelve kinds (. .. .x a 1 @base64 "s" (a), a string with every escape class, "a\(b)c", 1.5e3,
+                @json "x\(a)") also with
                 each ordered pair of suffixes; both unary signs and try (with/without catch) over every kind with
                 no suffix, with .b, and with [i]?
-     contexts   a core term (every kind bare; the eight with a name / bracket / optional suffix: 61 terms) as left and as
+     contexts   a core term (every kind bare; the twelve with a name / bracket / optional suffix: 73 terms) as left and as
                 right operand of each of the 24 binary operators, parenthesised, in an array, as object value, as
                 computed object key, as each argument of a call, as index and as each slice bound, in each part of
                 if/elif/else, of reduce, of foreach, as source and as body of `as` (also with ?// patterns), as body of
@@ -101,7 +102,9 @@ Definition PT (t : term) : prog := P (qterm t).
 (* every kind x (no suffix, each suffix, each pair) *)
 Definition kinds_small : list termkind :=
   [TIdentity; TRecurse; TIndex (Index (codes "x") None None None false); TFunc (Func (codes "a") []);
-   TNumber (codes "1") num0; TFormat (codes "@base64") None; TString (jstr "s"); TQuery qa].
+   TNumber (codes "1") num0; TFormat (codes "@base64") None; TString (jstr "s"); TQuery qa;
+   TString (JString escapes None); TString (jinterp "a" qb "c"); TNumber (codes "1.5e3") num0;
+   TFormat (codes "@json") (Some (jinterp "x" qa ""))].
 
 Definition fam_terms : list prog :=
   flat_map (fun k => map (fun sl => PT (Term k sl)) sfx_lists1) kinds ++
